@@ -152,7 +152,14 @@ func c11Ufs(x *Ctx) {
 		}
 		// the directory is then listed again from its start, twice, through the same fid
 		again := func() []*Msg { return []*Msg{{Type: Tread, Tag: next(), Fid: 90, Offset: 0, Count: 4000}} }
-		_ = stage(walks) && stage(opens) && stage(append(reads, creates...)) && stage(again()) && stage(again())
+		// and a Topen with a Tversion right behind it: the open may be cancelled while Ufs is in the middle of it
+		late := func() []*Msg {
+			return []*Msg{{Type: Twalk, Tag: next(), Fid: 0, Newfid: 95, Wname: []string{"f0"}}}
+		}
+		cancelled := func() []*Msg {
+			return []*Msg{{Type: Topen, Tag: next(), Fid: 95, Mode: 2}, {Type: Tversion, Tag: NOTAG, Msize: 8192, Version: []string{"9P2000", "9P2000.u"}[int(c.cfg("dotu"))%2]}}
+		}
+		_ = stage(walks) && stage(opens) && stage(append(reads, creates...)) && stage(again()) && stage(again()) && stage(late()) && stage(cancelled())
 	})
 	quiet := false
 	rt.Go(rt.SiteSpawn, func() {
@@ -430,6 +437,13 @@ func c11Version(x *Ctx) {
 		}
 		setup = true
 		p := victim.Peer
+		// first a walk to a new fid that the implementation keeps for a while, and a request that names the new
+		// fid meanwhile (whatever its answer): the new fid is the connection's like any other
+		holdTag[8] = true
+		w8 := p.Write(&Msg{Type: Twalk, Tag: 8, Fid: 0, Newfid: 7, Wname: []string{"c"}})[0]
+		rt.YieldUntil(rt.SiteActor, func() bool { return len(fs.HeldInvs()) > 0 || w8.Reply != nil || p.EOF })
+		s9 := p.Write(&Msg{Type: Tstat, Tag: 9, Fid: 7})[0]
+		rt.YieldUntil(rt.SiteActor, func() bool { return (w8.Reply != nil && s9.Reply != nil) || p.EOF })
 		var ms1 []*Msg
 		for i := 0; i < n; i++ {
 			tag := uint16(10 + i)
